@@ -31,7 +31,10 @@ Lemma bridge_pad_series L fill (s : series) : (length s <= L)%nat ->
   firstn hi (pad_series L fill s) = s /\
   skipn hi (pad_series L fill s) = repeat fill (alloc - hi).
 Proof.
-  intro H. cbv zeta. unfold gen_pad_alloc, gen_pad_copy_hi, zn. rewrite !Nat2Z.id.
+  intro H. cbv zeta.
+  replace (Z.to_nat (gen_pad_alloc (zn L))) with L by (unfold gen_pad_alloc, zn; lia).
+  replace (Z.to_nat (gen_pad_copy_hi (zn (length s)))) with (length s)
+    by (unfold gen_pad_copy_hi, zn; lia).
   unfold pad_series. split; [reflexivity|]. split; [|split].
   - rewrite app_length, repeat_length. lia.
   - rewrite firstn_app, firstn_all, Nat.sub_diag. cbn [firstn]. apply app_nil_r.
@@ -62,15 +65,19 @@ Proof. unfold gen_trunc_reject, zn. lia. Qed.
 Lemma bridge_trunc_none lo (s : series) : (lo <= length s)%nat ->
   iloc (arange 0 (gen_trunc_none_stop (zn lo))) s = slice 0 lo s.
 Proof.
-  intro H. unfold arange, gen_trunc_none_stop, zn, slice.
-  replace (Z.to_nat (Z.of_nat lo - 0)) with lo by lia. change (Z.to_nat 0) with 0%nat.
-  rewrite iloc_seq by lia. rewrite Nat.sub_0_r. reflexivity.
+  intro H. unfold arange, slice.
+  replace (Z.to_nat (gen_trunc_none_stop (zn lo) - 0)) with lo
+    by (unfold gen_trunc_none_stop, zn; lia).
+  change (Z.to_nat 0) with 0%nat. rewrite iloc_seq by lia. rewrite Nat.sub_0_r. reflexivity.
 Qed.
 Lemma bridge_trunc_range lo u (s : series) : (u <= length s)%nat ->
   iloc (arange (gen_trunc_start (zn lo) (zn u)) (gen_trunc_stop (zn lo) (zn u))) s = slice lo u s.
 Proof.
-  intro H. unfold arange, gen_trunc_start, gen_trunc_stop, zn, slice.
-  replace (Z.to_nat (Z.of_nat u - Z.of_nat lo)) with (u - lo)%nat by lia. rewrite Nat2Z.id.
+  intro H. unfold arange, slice.
+  replace (Z.to_nat (gen_trunc_stop (zn lo) (zn u) - gen_trunc_start (zn lo) (zn u)))
+    with (u - lo)%nat by (unfold gen_trunc_start, gen_trunc_stop, zn; lia).
+  replace (Z.to_nat (gen_trunc_start (zn lo) (zn u))) with lo
+    by (unfold gen_trunc_start, zn; lia).
   destruct (le_lt_dec lo u) as [Hle|Hlt].
   - apply iloc_seq. lia.
   - replace (u - lo)%nat with 0%nat by lia. reflexivity.
@@ -110,7 +117,8 @@ Qed.
 
 Lemma bridge_iseg_reject k n : gen_iseg_reject (zn k) (zn n) = (n / 2 <? k)%nat.
 Proof.
-  unfold gen_iseg_reject, zn. change 2%Z with (Z.of_nat 2). rewrite <- Nat2Z.inj_div. lia.
+  pose proof (Nat2Z.inj_div n 2) as H. change (Z.of_nat 2) with 2%Z in H.
+  unfold gen_iseg_reject, zn. lia.
 Qed.
 
 (* np.array_split yields chunks of consecutive indices; (first, last) index of every chunk *)
@@ -144,8 +152,8 @@ Lemma bridge_slide_reject w : gen_slide_reject (zn w) = (w =? 0)%nat.
 Proof. unfold gen_slide_reject, zn. lia. Qed.
 Lemma bridge_slide_pad w : Z.to_nat (gen_slide_pad (zn w)) = (w / 2)%nat.
 Proof.
-  unfold gen_slide_pad, zn. change 2%Z with (Z.of_nat 2). rewrite <- Nat2Z.inj_div.
-  apply Nat2Z.id.
+  pose proof (Nat2Z.inj_div w 2) as H. change (Z.of_nat 2) with 2%Z in H.
+  unfold gen_slide_pad, zn. lia.
 Qed.
 Lemma bridge_slide_padded_len w (s : series) :
   length (edge_pad (Z.to_nat (gen_slide_pad (zn w))) s)
@@ -186,30 +194,123 @@ Proof. unfold gen_paa_reject_low, gen_paa_reject_high, zn. lia. Qed.
 Lemma bridge_paa_len m (s : series) : gen_paa_len (Qn (length s)) (Qn m) = paa_len m s.
 Proof. reflexivity. Qed.
 
-(* the body of `for n in range(num_atts)` (symbolically executed) is the model's step function *)
-Lemma bridge_paa_step L st x : gen_paa_step L st x = paa_step L st x.
+(* The body of `for n in range(num_atts)` (symbolically executed; the state variables are found by
+   their role) against the model's step function.  The comparison is SEMANTIC: states are compared
+   field by field up to == on Q, the tests of both sides are case-split independently and
+   contradictory combinations are discharged by arithmetic, so an equivalent but differently
+   written loop body still proves. *)
+Definition st_eq (a b : paa_st) : Prop :=
+  Forall2 Qeq (fr a) (fr b) /\ cur a = cur b /\ sz a == sz b /\ sm a == sm b.
+
+Lemma Forall2_Qeq_refl : forall l : list Q, Forall2 Qeq l l.
+Proof. induction l; constructor; [reflexivity|assumption]. Qed.
+Lemma Forall2_Qeq_trans : forall l1 l2 l3 : list Q,
+  Forall2 Qeq l1 l2 -> Forall2 Qeq l2 l3 -> Forall2 Qeq l1 l3.
+Proof.
+  intros l1 l2 l3 H. revert l3. induction H as [|a b l1 l2 Hab _ IH]; intros l3 H3;
+    inversion H3; subst; constructor; [rewrite Hab; assumption|apply IH; assumption].
+Qed.
+Lemma st_eq_refl a : st_eq a a.
+Proof. repeat split; try reflexivity. apply Forall2_Qeq_refl. Qed.
+Lemma st_eq_trans a b c : st_eq a b -> st_eq b c -> st_eq a c.
+Proof.
+  intros (H1 & H2 & H3 & H4) (G1 & G2 & G3 & G4). repeat split.
+  - eapply Forall2_Qeq_trans; eassumption.
+  - congruence.
+  - rewrite H3. exact G3.
+  - rewrite H4. exact G4.
+Qed.
+
+Lemma qltb_true a b : qltb a b = true -> a < b.
+Proof.
+  unfold qltb. intro H. apply negb_true_iff in H. apply Qnot_le_lt. intro Hle.
+  apply Qle_bool_iff in Hle. congruence.
+Qed.
+Lemma qltb_false a b : qltb a b = false -> b <= a.
+Proof. unfold qltb. intro H. apply negb_false_iff in H. apply Qle_bool_iff. exact H. Qed.
+Lemma Qle_bool_true a b : Qle_bool a b = true -> a <= b.
+Proof. apply Qle_bool_iff. Qed.
+Lemma Qle_bool_false a b : Qle_bool a b = false -> b < a.
+Proof. intro H. apply Qnot_le_lt. intro Hle. apply Qle_bool_iff in Hle. congruence. Qed.
+
+Ltac q_tests :=
+  repeat match goal with
+  | |- context [qltb ?a ?b] =>
+      let H := fresh "T" in
+      destruct (qltb a b) eqn:H; [apply qltb_true in H|apply qltb_false in H]; cbv beta iota
+  | |- context [Qle_bool ?a ?b] =>
+      let H := fresh "T" in
+      destruct (Qle_bool a b) eqn:H; [apply Qle_bool_true in H|apply Qle_bool_false in H];
+      cbv beta iota
+  end;
+  repeat match goal with
+  | |- context [Qeq_bool ?a ?b] =>
+      let H := fresh "T" in
+      destruct (Qeq_bool a b) eqn:H; [apply Qeq_bool_eq in H|apply Qeq_bool_neq in H];
+      cbv beta iota
+  end.
+Ltac q_eq := first [reflexivity | ring | lra | (field; lra)].
+Ltac q_div := first [reflexivity | (unfold Qdiv; apply Qmult_comp; [q_eq|reflexivity])].
+Ltac q_frames :=
+  first [ apply Forall2_Qeq_refl
+        | apply Forall2_app; [apply Forall2_Qeq_refl|constructor; [q_div|constructor]] ].
+Ltac q_state :=
+  unfold st_eq; cbn [fr cur sz sm];
+  first [ solve [split; [q_frames|split; [first [reflexivity|lia]|split; q_eq]]]
+        | exfalso; lra ].
+
+Lemma bridge_paa_step L st x : st_eq (gen_paa_step L st x) (paa_step L st x).
 Proof.
   unfold gen_paa_step, paa_step. destruct st as [f c z a]. cbn [fr cur sz sm]. cbv zeta.
-  destruct (qltb 1 (L - z)); destruct (Qeq_bool _ L); f_equal; apply Nat.add_1_r.
+  q_tests; q_state.
 Qed.
-Lemma fold_left_ext {A B} (f g : A -> B -> A) : (forall a b, f a b = g a b) ->
-  forall l a, fold_left f l a = fold_left g l a.
-Proof. intros H l. induction l as [|b l IH]; intro a; cbn; [reflexivity|]. rewrite H. apply IH. Qed.
 
-(* the whole per-series algorithm: initial state, loop, lost-last-frame repair *)
-Lemma bridge_paa_coded m (s : series) : (1 <= m)%nat ->
-  paa_coded m s =
+(* the model's step respects == (a property of Model.v alone) *)
+Lemma paa_step_proper L a b x : st_eq a b -> st_eq (paa_step L a x) (paa_step L b x).
+Proof.
+  destruct a as [f c z m], b as [f' c' z' m']. unfold st_eq. cbn [fr cur sz sm].
+  intros (Hf & Hc & Hz & Hm). subst c'. unfold paa_step. cbn [fr cur sz sm]. cbv zeta.
+  q_tests; cbn [fr cur sz sm];
+    first [ exfalso; lra
+          | split; [first [ exact Hf
+                          | apply Forall2_app; [exact Hf|constructor; [|constructor]];
+                            rewrite ?Hz, ?Hm; reflexivity ]
+                   |split; [reflexivity|split; rewrite ?Hz, ?Hm; reflexivity]] ].
+Qed.
+
+Lemma bridge_paa_fold L : forall (s : series) a b, st_eq a b ->
+  st_eq (fold_left (gen_paa_step L) s a) (fold_left (paa_step L) s b).
+Proof.
+  induction s as [|x s IH]; intros a b H; cbn [fold_left]; [exact H|].
+  apply IH. eapply st_eq_trans; [apply bridge_paa_step|apply paa_step_proper; exact H].
+Qed.
+
+(* the whole per-series algorithm as regenerated: initial state, loop, lost-last-frame repair *)
+Definition gen_paa_coded (m : nat) (s : series) : series :=
   let L := gen_paa_len (Qn (length s)) (Qn m) in
   let st := fold_left (gen_paa_step L) s paa_init in
   if gen_paa_last (zn (cur st)) (zn m) then fr st ++ [gen_paa_tail (sm st) L] else fr st.
+
+Lemma bridge_paa_coded m (s : series) : (1 <= m)%nat ->
+  Forall2 Qeq (gen_paa_coded m s) (paa_coded m s).
 Proof.
-  intro Hm. unfold paa_coded. cbv zeta. rewrite bridge_paa_len.
-  rewrite (fold_left_ext (gen_paa_step (paa_len m s)) (paa_step (paa_len m s))
-             (bridge_paa_step (paa_len m s))).
-  replace (gen_paa_last (zn (cur (fold_left (paa_step (paa_len m s)) s paa_init))) (zn m))
+  intro Hm. unfold gen_paa_coded, paa_coded. cbv zeta. rewrite bridge_paa_len.
+  destruct (bridge_paa_fold (paa_len m s) s paa_init paa_init (st_eq_refl _))
+    as (Hf & Hc & _ & Hs).
+  replace (gen_paa_last (zn (cur (fold_left (gen_paa_step (paa_len m s)) s paa_init))) (zn m))
     with (cur (fold_left (paa_step (paa_len m s)) s paa_init) =? m - 1)%nat
-    by (unfold gen_paa_last, zn; lia).
-  reflexivity.
+    by (rewrite <- Hc; unfold gen_paa_last, zn; lia).
+  destruct (_ =? _)%nat; [|exact Hf].
+  apply Forall2_app; [exact Hf|]. constructor; [|constructor].
+  unfold gen_paa_tail. rewrite Hs. q_div.
+Qed.
+
+(* hence the REGENERATED algorithm computes the documented frame means *)
+Lemma bridge_paa_gen_is_frame_mean (m : nat) (s : series) : (1 <= m <= length s)%nat ->
+  Forall2 Qeq (gen_paa_coded m s) (paa_spec m s).
+Proof.
+  intro H. eapply Forall2_Qeq_trans; [apply bridge_paa_coded; lia|].
+  apply paa_coded_is_frame_mean. exact H.
 Qed.
 
 (* ---------- RandomIntervalFeatureExtractor ---------- *)
@@ -228,9 +329,13 @@ Proof.
   cbv zeta. destruct (rife_spec feats ivs s) as (Hlen & Hnth).
   unfold gen_rife_width, gen_rife_pos, gen_rife_lo, gen_rife_hi, zn. split.
   - rewrite Hlen. lia.
-  - intros f v Hf Hv. rewrite !Nat2Z.id.
+  - intros f v Hf Hv.
     replace (Z.to_nat (Z.of_nat f * Z.of_nat (length ivs) + Z.of_nat v))
       with (f * length ivs + v)%nat by lia.
+    replace (Z.to_nat (Z.of_nat (fst (nth v ivs (0, 0)%nat)))) with (fst (nth v ivs (0, 0)%nat))
+      by lia.
+    replace (Z.to_nat (Z.of_nat (snd (nth v ivs (0, 0)%nat)))) with (snd (nth v ivs (0, 0)%nat))
+      by lia.
     apply Hnth; assumption.
 Qed.
 
